@@ -42,7 +42,7 @@ Strict == [allDomains |-> TRUE,   \* a placed pod blocks / occupies EVERY domain
            policies   |-> TRUE,   \* nodeAffinityPolicy / nodeTaintsPolicy decide which nodes' pods count
            \* counterfactual switches, used ONLY to classify a failure into a narrow signature (never to pass a trace)
            ignoreWidens |-> TRUE, \* nodeAffinityPolicy Ignore: the minimum ranges over ALL domains, not only the pod's own
-           dpod       |-> <<>>,   \* <<e>>: restrict the eligible domains with the FIRST required term of pod object e only
+           dpod       |-> <<>>,   \* <<e>>: the pod object e as relaxed so far decides - eligible domains from its FIRST required term, node filter from its terms
            preferTaint |-> FALSE, \* nodeTaintsPolicy Honor also excludes nodes with an untolerated PreferNoSchedule taint
            fpod       |-> <<>>,   \* <<q>>: decide node inclusion with the node selector / required terms / tolerations of pod q
            since      |-> 0,      \* only the pods committed after position `since` of this pass are counted
@@ -130,7 +130,8 @@ ClaimLabellings(cfg, T, K) ==
 (* nodeTaintsPolicy Honor: only nodes whose NoSchedule/NoExecute taints p tolerates (default Ignore).  The two answers *)
 (* differ for a NodeClaim whose labels are still open and for a not yet initialized node (startup / not-ready taints).  *)
 Inc(o, cfg, p0, s, T) ==
-    LET p == IF o.fpod = <<>> THEN p0 ELSE o.fpod[1] IN
+    \* counterfactuals: the node filter of another pod (fpod), or of the pod object as relaxed so far (dpod: remaining terms, added toleration)
+    LET p == IF o.fpod # <<>> THEN o.fpod[1] ELSE IF o.dpod # <<>> THEN [p0 EXCEPT !.terms = o.dpod[1].terms, !.tol = o.dpod[1].tol] ELSE p0 IN
     IF ~o.policies THEN [lo |-> TRUE, hi |-> TRUE]
     ELSE IF T.kind = "node"
     THEN IF ~KnownNode(cfg, T.node) THEN [lo |-> FALSE, hi |-> FALSE]
@@ -246,6 +247,9 @@ SpreadParts(o, W, p, x, s, UL) ==
     IN [haskey |-> Dx # {}, dx |-> Dx, d |-> D, min |-> mn, self |-> self,
         cnt |-> [d \in Dx |-> lo(d)], hi |-> [e \in D |-> hi(e)],
         okd |-> [d \in Dx |-> lo(d) + self - mn <= s.maxSkew + o.slack],
+        \* per domain of the universe: pods counted for sure / every matching pod possibly there (for the comparison with the code's counts)
+        loOn |-> [e \in U \cup D |-> lo(e)],
+        posOn |-> [e \in U \cup D |-> Cardinality({q \in P : e \in dom[q] /\ inc[q].hi})],
         ok |-> \A d \in Dx : lo(d) + self - mn <= s.maxSkew + o.slack]
 SpreadOK(o, W, p, x, s, U) == SpreadParts(o, W, p, x, s, U).ok
 DnsIdx(p) == {i \in DOMAIN p.spread : p.spread[i].when = "DoNotSchedule"}
@@ -313,30 +317,51 @@ SigAff(o, W, p, x, t, e) ==
          (IF ~a.haskey THEN ":target-lacks-key"
           ELSE IF a.any THEN (IF Cardinality(TDom(W.cfg, x, t.key)) > 1 THEN ":domain-undetermined" ELSE ":match-elsewhere")
           ELSE ":no-match")
-(* Why did the spread guard fail?  Each known cause is a COUNTERFACTUAL: the failure disappears when exactly that        *)
-(* deviation from Kubernetes semantics is granted (e = the pod object Karpenter scheduled with, relaxations applied;    *)
-(* gmd = the minDomains values of the code's own groups for the constraint).  Anything else stays unclassified.         *)
-SpreadCause(o, W, p, x, s, U, e, gmd, owners) ==
+(* Why did the spread guard fail?  Each known cause is a COUNTERFACTUAL that must explain the admission completely: when  *)
+(* EXACTLY that deviation from Kubernetes semantics is granted - and nothing else - (1) the admission passes and (2) the *)
+(* spec's counts reproduce the counts the code itself held for the constraint after the commit, on EVERY domain of the   *)
+(* code's group (certain count <= code's count <= possible count).  (2) is what keeps a known cause from swallowing a    *)
+(* different defect: a deviation that merely makes the guard lenient (a minimum over fewer domains, a node filter that   *)
+(* matches nothing) does not explain counts that are off.  The code's counts are used for this classification only,      *)
+(* never for the verdict.  e = the pod object Karpenter scheduled with (relaxations applied); groups = the code's own     *)
+(* groups for the constraint (Sched.topo: owned, same key and maxSkew).  Anything else stays unclassified = a violation. *)
+Reproduces(o, W, p, x, s, U, g) ==
+    LET a == SpreadParts(o, W, p, x, s, U) IN
+    \* (hostname: the code names a node that has no Node object yet after its NodeClaim, "nc-<name>" - not comparable)
+    \A e \in (DOMAIN g.domains \cap DOMAIN a.loOn) \ {"nc-" \o n.name : n \in {m \in Range(W.cfg.nodes) : m.stage = "claimonly"}} :
+        \* the admitted pod itself is in the code's count iff the target takes part under the (counterfactual) node filter
+        LET ix == Inc(o, W.cfg, p, s, x)
+            meLo == IF e \in a.dx /\ ix.lo THEN a.self ELSE 0
+            meHi == IF e \in a.dx /\ ix.hi THEN a.self ELSE 0
+        IN a.loOn[e] + meLo <= g.domains[e] /\ g.domains[e] <= a.posOn[e] + meHi
+Explains(o, W, p, x, s, U, groups) == SpreadOK(o, W, p, x, s, U) /\ \E g \in groups : Reproduces(o, W, p, x, s, U, g)
+SpreadCause(o, W, p, x, s, U, e, groups) ==
     LET relaxed == e # <<>> /\ (e[1].tol # p.tol \/ e[1].terms # p.terms)
-        mds == {m \in gmd : m # s.minDomains}
+        mds == {g.minDomains : g \in groups} \ {s.minDomains}
+        owners == UNION {Range(g.owners) : g \in groups}
         \* pods whose node filter the code may have judged p with: the other owners of the code's group, and (an ownerless group
         \* survives the requeue of the pod that created it) every batch pod with a constraint on the same key whose node
         \* filter constrains the same label keys with other values - the identity of a group ignores the values
         oth == {q \in {PodByKey(W.cfg, k) : k \in {y \in owners \cup W.batch : KnownPod(W.cfg, y)}} :
                     /\ q.sel # p.sel \/ q.terms # p.terms \/ q.tol # p.tol
                     /\ PKey(q) \in owners \/ (NodeConstraintKeys(q) = NodeConstraintKeys(p) /\ \E i \in DnsIdx(q) : q.spread[i].key = s.key)}
-        c1 == \E m \in mds : SpreadOK(o, W, p, x, [s EXCEPT !.minDomains = m], U)
-        c2 == s.affPol = "Ignore" /\ SpreadOK([o EXCEPT !.ignoreWidens = FALSE], W, p, x, s, U)
-        c3 == e # <<>> /\ Len(p.terms) > 1 /\ SpreadOK([o EXCEPT !.dpod = e], W, p, x, s, U)
-        c4 == s.taintPol = "Honor" /\ SpreadOK([o EXCEPT !.preferTaint = TRUE], W, p, x, s, U)
-        c5 == relaxed /\ \E j \in DOMAIN W.plc : SpreadOK([o EXCEPT !.since = j], W, p, x, s, U)
-        c6 == \E q \in oth : SpreadOK([o EXCEPT !.fpod = <<q>>], W, p, x, s, U)
-        c7 == SpreadOK([o EXCEPT !.undefSkips = TRUE], W, p, x, s, U)
-        \* every deviation that applies, granted at once
-        oAll == [o EXCEPT !.ignoreWidens = FALSE, !.dpod = IF e # <<>> /\ Len(p.terms) > 1 THEN e ELSE <<>>, !.preferTaint = TRUE, !.undefSkips = TRUE]
-        call == \E m \in gmd \cup {s.minDomains} : \E j \in (IF relaxed THEN DOMAIN W.plc ELSE {}) \cup {0} :
-                    \/ SpreadOK([oAll EXCEPT !.since = j], W, p, x, [s EXCEPT !.minDomains = m], U)
-                    \/ \E q \in oth : SpreadOK([oAll EXCEPT !.since = j, !.fpod = <<q>>], W, p, x, [s EXCEPT !.minDomains = m], U)
+        \* ... and those pods as relaxation may have left them (leading required terms dropped)
+        othR == oth \cup UNION {{[q EXCEPT !.terms = SubSeq(q.terms, k, Len(q.terms))] : k \in 2..Len(q.terms)} : q \in oth}
+        c1 == \E m \in mds : Explains(o, W, p, x, [s EXCEPT !.minDomains = m], U, {g \in groups : g.minDomains = m})
+        c2 == s.affPol = "Ignore" /\ Explains([o EXCEPT !.ignoreWidens = FALSE], W, p, x, s, U, groups)
+        c3 == e # <<>> /\ Len(p.terms) > 1 /\ Explains([o EXCEPT !.dpod = e], W, p, x, s, U, groups)
+        c4 == s.taintPol = "Honor" /\ Explains([o EXCEPT !.preferTaint = TRUE], W, p, x, s, U, groups)
+        c5 == relaxed /\ \E j \in DOMAIN W.plc : Explains([o EXCEPT !.since = j], W, p, x, s, U, groups)
+        c6 == \E q \in othR : Explains([o EXCEPT !.fpod = <<q>>], W, p, x, s, U, groups)
+        c7 == Explains([o EXCEPT !.undefSkips = TRUE], W, p, x, s, U, groups)
+        \* several of the deviations acting together: the ones that only move the minimum (another pod's minDomains, Ignore policy,
+        \* first term) are granted at once, each of the ones that change the counts is granted or not - and the combination must
+        \* still reproduce the code's counts on every domain
+        oMin == [o EXCEPT !.ignoreWidens = FALSE, !.dpod = IF e # <<>> /\ Len(p.terms) > 1 THEN e ELSE <<>>]
+        call == \E m \in mds \cup {s.minDomains} : \E pt \in BOOLEAN : \E us \in BOOLEAN :
+                \E j \in (IF relaxed THEN DOMAIN W.plc ELSE {}) \cup {0} : \E fq \in {<<q>> : q \in othR} \cup {<<>>} :
+                    Explains([oMin EXCEPT !.preferTaint = pt /\ s.taintPol = "Honor", !.undefSkips = us, !.since = j, !.fpod = fq], W, p, x,
+                             [s EXCEPT !.minDomains = m], U, {g \in groups : g.minDomains = m})
     IN IF c1 THEN ":minDomains-of-another-pods-constraint"
        ELSE IF c2 THEN ":ignore-policy-minimum-over-own-domains"
        ELSE IF c3 THEN ":minimum-over-first-term-only"
